@@ -75,9 +75,10 @@ def main(tier='quick', seed=0):
         'deductive part 3: _type_check (lists of sentences / score objects, executed over symbolic collections with the arbitrary-sentence loop rule) returns its arguments only if the counts agree and the sentence fits its matrices '
         '(tag: tokens x len(categories), dep: tokens x tokens + 1) and raises RuntimeError only for a real mismatch; run() calls it first, on the arguments as given (call-order obligation on the ast); '
         'frame of *config in parse_sentence (CxxVC)',
+        'parsing.pyx (DePyx text): the id table keeps the meaning of ids handed out for earlier sentences (PyVC); every path through the sentence loop of run appends exactly one entry to the returned list (ast path enumeration)',
         'history / schedule independence, alignment under every chunking, placeholders for too long / unparseable sentences and shape rejection before parsing are decided by the BOUNDED differential run on the real code '
         '(parsing.h compiled, DePyx text of parsing.pyx, depccg/parsing.py with an in-process stand-in for multiprocessing.Pool); real OS-level process scheduling is not modelled',
     ]
-    extra = dict(functions_under_contract=['depccg/parsing.py::_chunks', 'depccg/parsing.py::_type_check (list form)', 'depccg/parsing.py::run (call order of the shape check)', 'depccg/parsing.h::parse_sentence (frame of *config)', 'depccg/parsing.h::parse_sentence::apply_binary_rules (lambda)', 'depccg/parsing.h::parse_sentence::apply_unary_rules (lambda)'],
+    extra = dict(functions_under_contract=['depccg/parsing.py::_chunks', 'depccg/parsing.py::_type_check (list form)', 'depccg/parsing.py::run (call order of the shape check)', 'depccg/parsing.h::parse_sentence (frame of *config)', 'depccg/parsing.h::parse_sentence::apply_binary_rules (lambda)', 'depccg/parsing.h::parse_sentence::apply_unary_rules (lambda)'] + pyx.FUNCTIONS_UNDER_CONTRACT[PROP],
                  bounded_functions=['depccg/parsing.py::run (chunking, collection, single-sentence form)', 'depccg/parsing.pyx::run (DePyx)'], cxx=info)
     return c12.finish_with(PROP, tier, seed, t0, records, errors, extra, assumptions, ['pyx_real.py'], level='exploration')
